@@ -26,6 +26,9 @@ CLAIMED = {
              text="All subsets of failing serializers for start/success/stand-alone typed messages on the model; on the code harness serializers wrap values so double application is visible, placement of eliot:traceback / eliot:serialization_failure compared with the spec.", ref="6 C13"),
 }
 
+ENABLED = {"C09", "C16", "C06"}
+
+
 def main():
     props = [json.loads(l) for l in open(os.path.join(V, "properties.jsonl"))]
     old = json.load(open(os.path.join(V, "MANIFEST.json")))
@@ -36,6 +39,8 @@ def main():
     import glob
     for f in sorted(glob.glob(os.path.join(V, "harness", "manifest_c*.json"))):      # fragments of the other engines
         frag = json.load(open(f))
+        if os.path.basename(f)[len("manifest_"):-len(".json")].upper() not in ENABLED:
+            continue                       # fragment of a check that is still being built / reviewed
         claimed.update(frag.get("claimed", {}))
         extra.setdefault("engines", []).extend(frag.get("engines", []))
     checks, na = [], []
